@@ -41,7 +41,7 @@ from typing import Dict, List, Optional, Set, Tuple
 
 from ..cfg import cfg_of, origins
 from ..flowutil import attr_chain, for_origin, is_fresh_list, mutations_of, param_origin
-from ..index import AnalysisError, FuncNode, arg_of, call_name, calls_in, enclosing_class, enclosing_function, kwarg, norm, short, walk_local
+from ..index import AnalysisError, FuncNode, arg_of, call_name, calls_in, enclosing_class, enclosing_function, kwarg, last_attr, norm, short, walk_local
 from ..spacekinds import attr_path, leaves
 
 SEGBASE = "src/sqlfluff/core/parser/segments/base.py"
@@ -60,11 +60,48 @@ def run(chk) -> None:
     chk.rule("R28c", "the serialisers visit self.segments itself, in order, recursing with unchanged options; without code_only only meta segments are filtered; leaves carry self.raw unmodified; only meta classes override a serialiser")
     _r28a(chk, repo)
     _r28b(chk, repo)
+    chk.rule("R28d", "the human parse output prints, under each variant's heading, the tree of that variant: inside a loop over the parsed variants every stringify() receiver derives from the loop's own element")
+    _r28d(chk, repo)
     _r28c(chk, repo)
     chk.note("Claimed at the weakest level: these are wiring facts of the serialiser, not a proof that the listed texts concatenate to the rendered SQL.")
 
 
 # ---------------------------------------------------------------------------
+def _r28d(chk, repo) -> None:
+    m = repo.mod(FMT)
+    n = 0
+    for q, f in m.functions():
+        cfg = None
+        for loop in walk_local(f):
+            if not (isinstance(loop, ast.For) and isinstance(loop.iter, (ast.Attribute, ast.Call)) and "parsed_variants" in norm(loop.iter)):
+                continue
+            names = {x.id for x in ast.walk(loop.target) if isinstance(x, ast.Name)}
+            for c in [x for st in loop.body for x in ast.walk(st) if isinstance(x, ast.Call)]:
+                if not (last_attr(c) == "stringify" and isinstance(c.func, ast.Attribute)):
+                    continue
+                n += 1
+                cfg = cfg or cfg_of(f)
+                recv = c.func.value
+                root = recv
+                while isinstance(root, (ast.Attribute, ast.Subscript)):
+                    root = root.value
+                ok = isinstance(root, ast.Name) and root.id in names
+                if not ok and isinstance(root, ast.Name):
+                    # a local bound inside the loop to (a member of) the loop element
+                    os_ = origins(cfg, root, cfg.stmt_of(c))
+                    ok = bool(os_) and all(
+                        o.kind == "expr" and any(isinstance(x, ast.Name) and x.id in names for x in ast.walk(o.expr)) for o in os_
+                    )
+                chk.require(
+                    ok, "R28d", c,
+                    f"{q}: inside the loop over the parsed variants `{short(c, 70)}` prints a tree that does not belong to the variant of this iteration: every "
+                    "'Variant N:' section then lists the same tokens, and the output no longer lists the tokens of the rendering it is labelled with",
+                    detail=f"{q}: per-variant output prints the loop variant's tree",
+                )
+    chk.count("R28d.per_variant_stringify_sites", n)
+    chk.floor("R28d.per_variant_stringify_sites", 1)
+
+
 def _is_false_or_param(cfg, fn, e, at) -> Tuple[bool, str]:
     if e is None:
         return True, "default"
@@ -629,6 +666,18 @@ def _r28c(chk, repo) -> None:
 from ..selftest import Variant  # noqa: E402
 
 VARIANTS = [
+    Variant(
+        "variant-section-prints-root-tree", FMT,
+        "                        output_stream.write(variant.tree.stringify(code_only=code_only))\n",
+        "                        output_stream.write(root_variant.tree.stringify(code_only=code_only))\n",
+        "R28d", "print_out_violations_and_timing", "seeded C28-2",
+    ),
+    Variant(
+        "quiet-variant-tree-through-local", FMT,
+        "                        output_stream.write(variant.tree.stringify(code_only=code_only))\n",
+        "                        this_tree = variant.tree\n                        output_stream.write(this_tree.stringify(code_only=code_only))\n",
+        "QUIET", None, "tree of the loop variant held in a local",
+    ),
     # ---- behaviour-preserving edits ---------------------------------------------------------------
     Variant(
         "quiet-api-parse-options-through-locals", API,
